@@ -99,6 +99,25 @@ func c13tile(c *h.Ctx, t maptile.Tile, strictCorners bool, r *h.Rand) {
 		fail("FromQuadkey of the reference key is not the tile", map[string]interface{}{"back": sv(back)})
 	}
 	c.Evals(2)
+	// the optional tile buffer: Bound(1) spans the 3x3 block around the tile; a buffered call must not
+	// change what later unbuffered calls return (call history)
+	b0 := t.Bound()
+	bb := t.Bound([]float64{0.5, 1, 0.25}[r.Intn(3)])
+	b1 := t.Bound()
+	c.Evals(3)
+	if b1 != b0 || t.Bound(0) != b0 {
+		fail("Bound() after a buffered Bound(buffer) call differs from Bound() before it", map[string]interface{}{"before": sv(b0), "buffered": sv(bb), "after": sv(b1)})
+	}
+	if !(bb.Min[0] < b0.Min[0] && bb.Max[0] > b0.Max[0] && bb.Min[1] <= b0.Min[1] && bb.Max[1] >= b0.Max[1]) {
+		fail("a buffered bound does not contain the tile's bound", map[string]interface{}{"bound": sv(b0), "buffered": sv(bb)})
+	}
+	if maxI := uint32(1)<<uint(t.Z) - 1; t.X > 0 && t.X < maxI && t.Y > 0 && t.Y < maxI {
+		b3 := t.Bound(1)
+		nw, se := maptile.Tile{X: t.X - 1, Y: t.Y - 1, Z: t.Z}.Bound(), maptile.Tile{X: t.X + 1, Y: t.Y + 1, Z: t.Z}.Bound()
+		if !bitsEq(b3.Min[0], nw.Min[0]) || !bitsEq(b3.Max[1], nw.Max[1]) || !bitsEq(b3.Max[0], se.Max[0]) || !bitsEq(b3.Min[1], se.Min[1]) {
+			fail("Bound(1) is not the bound of the 3x3 block of tiles around the tile", map[string]interface{}{"got": sv(b3), "north_west": sv(nw), "south_east": sv(se)})
+		}
+	}
 	// parent / children
 	tb := t.Bound()
 	if t.Z < 30 {
